@@ -1,10 +1,14 @@
-// Package quiet replaces neptune's default logger by a no-op (logging is not part of any property and
-// would otherwise dominate the output).
+// Package quiet replaces neptune's default logger by one that writes nowhere (logging is not part of any
+// property and would otherwise dominate the output).  It is a complete logger - its level can be read
+// and set (ulog.SetLogLevel) - so code that consults the level behaves as in production.
 package quiet
 
 import (
 	"github.com/pinealctx/neptune/ulog"
 	"go.uber.org/zap"
+	"go.uber.org/zap/zapcore"
 )
 
-func init() { ulog.SetDefaultLogger(&ulog.Logger{Logger: zap.NewNop()}) }
+func init() {
+	ulog.SetDefaultLogger(ulog.NewSimpleLogger("debug", zap.WrapCore(func(zapcore.Core) zapcore.Core { return zapcore.NewNopCore() })))
+}
